@@ -7,14 +7,14 @@ def run(tier, seed, replay=None):
     parts = [EventPart("evt", report_crashes=False)]
     return run_check(
         "C05", tier, seed, ["UnifexModel.Props.C05"], parts,
-        rule="type-directed random sender expressions (size<=12 quick / <=25 thorough, 21 node kinds) with scripted leaves (inline value/error/done, "
+        rule="type-directed random sender expressions (size<=12 quick / <=25 thorough, 27 node kinds) with scripted leaves (inline value/error/done, "
              "pending with/without reaction to stop), scripted throwing callables, and external event scripts (start, stop at a random position, "
              "leaf completions in random order); each is run on the REAL library (children erased with any_sender_of<int>, ASan+UBSan build) and on the "
              "Lean calculus; a case counts as distinct non-trivial when it has at least one pending leaf or stop notification and its canonical trace is new",
         assumptions=["external events are serialised (single thread); concurrent completions are covered by the atomic-level models of when_all/stop_when (C01)",
                      "user callables are total deterministic scripts (add / throw / throw-if-equal)",
-                     "algorithm set: just just_error just_done then upon_error upon_done let_value let_error let_done sequence finally when_all(2) stop_when "
-                     "materialize+dematerialize done_as_optional unstoppable with_query_value let_value_with_stop_source any_sender_of; others are outside the theorems"],
+                     "algorithm set: just just_error just_done then upon_error upon_done let_value let_error let_done sequence finally when_all(2) when_any(2) stop_when "
+                     "materialize+dematerialize done_as_optional unstoppable with_query_value let_value_with_stop_source any_sender_of into_variant defer allocate just_from just_void_or_done; others are outside the theorems"],
         trusted_extra=["harness/evt/evt.cpp (builds the real sender tree, canonicalises observations)", "tools/evt.py generator and diff", "g++ 12, ASan/UBSan"],
         explanation="Theorems (Props/C05): start_refines_evalI — for every expression whose leaves complete inline, start() completes with exactly the denotational "
                     "spec evalI (Calc/Spec.lean), for all environments and callables; per-algorithm laws for deferred completion (unary_signals_map, "
